@@ -223,8 +223,15 @@ func TestVerifC04(t *testing.T) {
 	kernel.Component("clock", "simulated (testing/synctest)")
 	kernel.Check(t, "C04", func(r *kernel.Run) {
 		seed := r.Uint64("cryptoseed")
+		scenario := r.Pick("scenario", 3) // 0,1: devices of one account on the account group; 2: multi-member / contact group
 		r.Words(3000)
-		res := sched.Bubble(t, func() { c04account(r, seed) })
+		res := sched.Bubble(t, func() {
+			if scenario == 2 {
+				c04group(r, seed)
+			} else {
+				c04account(r, seed)
+			}
+		})
 		if res != "" && !r.Failed() {
 			r.Infra("bubble panicked: %s", res)
 		}
